@@ -60,6 +60,12 @@ def make_texts(rng):
     a.add_task("y0", effort=12 * 3600, alloc=[busy], alt=[pool[2], pool[0], pool[3], pool[1]], prio=440)
     a.add_task("y1", effort=20 * 3600, alloc=[busy], alt=[pool[1], pool[3], pool[0]], prio=430)
     a.add_task("y2", effort=6 * 3600, alloc=[pool[3]], prio=420)
+    # work that does not fit (a weekly limit keeps it from finishing): the task stays unscheduled, whatever is called afterwards;
+    # and a resource that is both the primary choice and one of its own alternatives
+    slowpoke = a.add_res("slowpoke")
+    slowpoke.rate = 90
+    a.add_task("nofit", effort=40 * 8 * 3600, alloc=[slowpoke], prio=200, limits=[("w", 8 * 3600, None)])
+    a.add_task("y3", effort=10 * 3600, alloc=[pool[0]], alt=[pool[1], pool[0]], prio=410)
     a.extra = REPORT
     b = gen.limits_profile(rng, 1)[0][1]
     b.scenarios = [("plan", [("alt", [])])]
